@@ -259,6 +259,8 @@ def check(ctx):
     obs.extend([o3, o4, o5, o6])
     obs.append(ctx.shared('c09', 'C09.5', 'C11.7', 'a processor asks for its whole requirement in one reservation each time a part is offered; a refused reservation must leave '
                           'every pool untouched, or usage exceeds what the holders hold'))
+    obs.append(ctx.shared('c09', 'C09.4', 'C11.8', 'a processor gives back exactly what it holds: a release subtracts exactly the released amounts from the usage of each pool '
+                          '(clamping the usage after a capacity cut makes the pool forget what other processors still hold)'))
     return obs
 
 
